@@ -773,7 +773,7 @@ static unsigned long long nx_state_hash(void)
 static int nx_leaf_bytes(char *buf, int max)
 {
 	(void) max;
-	strcpy(buf, ESC ":q!\n");
+	strcpy(buf, ESC "i\x16\x01" ESC ":w! out\n:q!\n");	/* marker (^A) at the cursor, then write */
 	return strlen(buf);
 }
 static void nx_at_exit(void)
@@ -825,6 +825,7 @@ int main(int argc, char **argv)
 	nx_hist_name = hist_name;
 	nx_pre_state = pre_state;
 	nx_shard_level = -1;
+	nx_trace_every = atoi(nv_arg(argc, argv, "trace", nv_thorough ? "397" : "211"));
 	signal(SIGPIPE, SIG_IGN);
 	build_ops();
 	d = atoi(nv_arg(argc, argv, "depth", nv_thorough ? "4" : "3"));
